@@ -165,14 +165,15 @@ def sibling_constructor_agreement(ctx, rule="R18.a"):
     chk, repo = ctx.chk, ctx.repo
     multi = repo.find_class("MultiJobShopGraphEnv")
     single = repo.find_class("SingleJobShopGraphEnv")
-    init, rst = multi.methods.get("__init__"), multi.methods.get("reset")
-    if init is None or rst is None:
+    init_raw, rst_raw = multi.methods.get("__init__"), multi.methods.get("reset")
+    if init_raw is None or rst_raw is None:
         raise AnalysisError("MultiJobShopGraphEnv.__init__/reset vanished")
+    init, rst = ctx.norm.flat(init_raw), ctx.norm.flat(rst_raw)
     c_init, c_rst = _ctor_calls(ctx, init, single), _ctor_calls(ctx, rst, single)
     if len(c_init) != 1:
         raise AnalysisError("MultiJobShopGraphEnv.__init__: expected exactly one SingleJobShopGraphEnv(...) call")
     if len(c_rst) != 1:
-        chk.violation(rule, rst, None, "MultiJobShopGraphEnv.reset does not rebuild the inner environment for the new instance")
+        chk.violation(rule, rst_raw, None, "MultiJobShopGraphEnv.reset does not rebuild the inner environment for the new instance")
         return
     ci, cr = c_init[0], c_rst[0]
     sparams = repo.method(single, "__init__").params[1:]
@@ -187,58 +188,67 @@ def sibling_constructor_agreement(ctx, rule="R18.a"):
         return m
 
     ki, kr = kwmap(ci), kwmap(cr)
+    iparams = set(init_raw.params)
     # attributes of self that store constructor parameters
     stored = {}
     for n in own_nodes(init.node):
         if isinstance(n, ast.Assign):
             for t in n.targets:
-                if isinstance(t, ast.Attribute) and ast.unparse(t.value) == "self" and isinstance(n.value, ast.Name):
+                if isinstance(t, ast.Attribute) and ast.unparse(t.value) == "self" and isinstance(n.value, ast.Name) and n.value.id in iparams:
                     stored[t.attr] = n.value.id
-    iparams = set(init.params)
+
+    def source(F, v):
+        """('param', P) constructor argument P; ('live', text) state of the
+        environment; ('other', text)."""
+        x = ctx.norm.xexpr(F, v)
+        if isinstance(x, ast.Name) and x.id in iparams and F is init:
+            return ("param", x.id)
+        if isinstance(x, ast.Attribute) and ast.unparse(x.value) == "self":
+            if x.attr in stored:
+                return ("param", stored[x.attr])
+            pt = repo.method(multi, x.attr)
+            if pt is not None and pt.is_property:
+                return ("live", x.attr)
+        if isinstance(x, ast.Attribute) and ast.unparse(x).startswith("self."):
+            return ("live", ast.unparse(x))
+        return ("other", ast.unparse(x))
+
     n_kw = 0
     for k, v in ki.items():
-        if not (isinstance(v, ast.Name) and v.id in iparams):
+        si = source(init, v)
+        if si[0] != "param":
             continue  # derived per-episode value (the graph)
         n_kw += 1
+        P = si[1]
         if k not in kr:
             chk.violation(
-                rule, rst, cr,
-                f"the constructor forwards `{k}={v.id}` to SingleJobShopGraphEnv but reset does not: from the "
+                rule, rst_raw, cr,
+                f"the constructor forwards `{k}={P}` to SingleJobShopGraphEnv but reset does not: from the "
                 f"second episode on the environment silently runs with the default {k}",
                 loc=rst.loc(cr),
             )
             continue
-        rv = kr[k]
-        src = None
-        if isinstance(rv, ast.Attribute) and ast.unparse(rv.value) == "self":
-            if rv.attr in stored:
-                src = stored[rv.attr]
-            else:
-                pt = repo.method(multi, rv.attr)
-                if pt is not None and pt.is_property:
-                    src = f"<property {rv.attr}>"
-        elif isinstance(rv, ast.Attribute) and ast.unparse(rv).startswith("self."):
-            src = "<inner env state>"
-        if src is None:
+        sr = source(rst, kr[k])
+        shown = ast.unparse(kr[k])
+        if sr == ("param", P):
+            chk.ok(rule, rst_raw.qualname, rst.loc(kr[k]), f"{k} forwarded from the attribute storing `{P}`")
+        elif sr[0] == "param":
             chk.violation(
-                rule, rst, rv,
-                f"reset passes `{k}={ast.unparse(rv)}`, which is not the stored constructor argument",
-                loc=rst.loc(rv),
+                rule, rst_raw, kr[k],
+                f"reset passes `{k}={shown}`, which stores the constructor argument `{sr[1]}`, not `{P}`",
+                loc=rst.loc(kr[k]),
             )
-        elif src.startswith("<"):
-            # through a property / the previous inner env: name must agree
-            if k not in ast.unparse(rv):
-                chk.violation(rule, rst, rv, f"reset passes `{k}={ast.unparse(rv)}`: a different setting is forwarded", loc=rst.loc(rv))
-            else:
-                chk.ok(rule, rst.qualname, rst.loc(rv), f"{k} forwarded from live state ({ast.unparse(rv)})")
-        elif src != v.id:
-            chk.violation(
-                rule, rst, rv,
-                f"reset passes `{k}=self.{rv.attr}`, which stores the constructor argument `{src}`, not `{v.id}`",
-                loc=rst.loc(rv),
-            )
+        elif sr[0] == "live" and k in sr[1]:
+            chk.ok(rule, rst_raw.qualname, rst.loc(kr[k]), f"{k} forwarded from live state ({sr[1]})")
+        elif sr[0] == "live":
+            chk.violation(rule, rst_raw, kr[k], f"reset passes `{k}={shown}`: a different setting is forwarded", loc=rst.loc(kr[k]))
         else:
-            chk.ok(rule, rst.qualname, rst.loc(rv), f"{k} forwarded from self.{rv.attr}")
+            chk.violation(
+                rule, rst_raw, kr[k],
+                f"reset passes `{k}={sr[1][:60]}`, which is not the stored constructor argument `{P}`: from the second "
+                f"episode on the environment runs with a different {k}",
+                loc=rst.loc(kr[k]),
+            )
     if n_kw < 6:
         raise AnalysisError(f"only {n_kw} configuration keywords recognised in MultiJobShopGraphEnv.__init__ (floor 6)")
 
@@ -269,7 +279,7 @@ def _fill_value(node, env):
 def action_and_edge_ranges(ctx):
     chk, repo = ctx.chk, ctx.repo
     single = repo.find_class("SingleJobShopGraphEnv")
-    init = single.methods["__init__"]
+    init = ctx.norm.flat(single.methods["__init__"])
     env = {}
     for n in own_nodes(init.node):
         if isinstance(n, ast.Assign) and isinstance(n.targets[0], ast.Name):
